@@ -64,6 +64,9 @@ def cases(tier, seed):
     for d, B in itertools.product(("G5nm", "G5mm"), (0.2,) if quick else fields):
         for tol in (1e-3,) if quick else tols:
             out.append(dict(fam="run", dev=d, B=B, tol=tol, ab=0, maxit=1000))
+    # screening settings edited on the options object after the solver was built
+    for d, ab in itertools.product(("G1s", "G5"), (0, 1)):
+        out.append(dict(fam="run", dev=d, B=0.6, tol=1e-3, ab=ab, maxit=1000, edit_after_build=True))
     # transport current at exactly zero applied field (the induced potential comes from the sheet current, not from the field)
     for tol in (1e-2, 1e-3):
         out.append(dict(fam="run", dev="G1b", B=0.0, tol=tol, ab=0, maxit=1000))
@@ -212,11 +215,16 @@ def run_run(case):
         include_screening=True, screening_tolerance=case["tol"], screening_step_size=alpha, screening_step_drag=beta,
         max_iterations_per_step=case["maxit"], progress_interval=10**9, field_units=fu, skip_time=(3 * dt if case.get("thermal") else 0.0),
     )
+    if case.get("edit_after_build"):
+        # the options object is edited between building the solver and running it: the run uses the settings as they are then
+        opts.screening_tolerance, opts.screening_step_size, opts.screening_step_drag = 30 * case["tol"], 0.5 * alpha, min(1.0, 1.5 * beta)
     if case.get("prior"):
         po = tdgl.SolverOptions(solve_time=3 * dt, dt_init=dt, dt_max=dt, adaptive=False, save_every=3, output_file="prior.h5", include_screening=True,
                                 screening_tolerance=1e-2, progress_interval=10**9, field_units=fu)
         tdgl.solve(dev, po, applied_vector_potential=0.6 * {"uT": 1e3, "T": 1e-3, "mT": 1.0}[fu])
     solver = tdgl.TDGLSolver(dev, opts, **kw)
+    if case.get("edit_after_build"):
+        opts.screening_tolerance, opts.screening_step_size, opts.screening_step_drag = case["tol"], alpha, beta
     si = SI(dev)
     calls = []
     orig = solver.get_induced_vector_potential
